@@ -379,4 +379,13 @@ def soundAffineRoot : Root := fun r g =>
   | none => none
   | some x => checkedRoots [x] r g
 
+/-- the `update` calls of a history: object state right before the call, the `dt` argument, the outcome;
+    a call that raised leaves the mutated object behind and the history goes on from there -/
+def updateLog (M : Static) (F G : ResFn) (root : Root) (o : SimObj) : List Op → List (Sim × Rat × Outcome Sim)
+  | [] => []
+  | op :: rest =>
+    (match op with
+     | .update dtArg => [(o.cur, dtArg, update M F G root o.cur dtArg)]
+     | _ => []) ++ updateLog M F G root (applyOp M F G root o op) rest
+
 end RtcVerif.C09
